@@ -304,3 +304,49 @@ func Harness_C16_mtrain() {
 	with.Trips[0].StopTimeUpdates[0].StopID = without.Trips[0].StopTimeUpdates[0].StopID
 	vr.Assert("C16.mtrain.nothing_else", vr.DeepEq(with.Trips, without.Trips))
 }
+
+func init() { vr.Register("Harness_C07_nyct_order", Harness_C07_nyct_order) }
+
+// With the nycttrips extension: a trip update and the vehicle position of the same assigned NYCT
+// trip, the feed's own vehicle descriptor (a label) on none, one or both of them, in both entity
+// orders: same trips, same vehicles, same links.
+func Harness_C07_nyct_order() {
+	tid, route, train, assigned := "012345_A..N", "A", vr.Str("nyct.train_id"), true
+	vr.Assume(train != "")
+	label := vr.Str("feed_vehicle.label")
+	vr.Assume(label != "")
+	mk := func() *gtfsrt.TripDescriptor {
+		id := tid
+		td := &gtfsrt.TripDescriptor{TripId: &id, RouteId: &route}
+		proto.SetExtension(td, gtfsrt.E_NyctTripDescriptor, &gtfsrt.NyctTripDescriptor{TrainId: &train, IsAssigned: &assigned})
+		return td
+	}
+	desc := func(on bool) *gtfsrt.VehicleDescriptor {
+		if !on {
+			return nil
+		}
+		l := label
+		return &gtfsrt.VehicleDescriptor{Label: &l}
+	}
+	sid := "A01N"
+	tu := &gtfsrt.FeedEntity{Id: hStr("tu"), TripUpdate: &gtfsrt.TripUpdate{Trip: mk(), Vehicle: desc(vr.Bool("tu.has_descriptor")),
+		StopTimeUpdate: []*gtfsrt.TripUpdate_StopTimeUpdate{{StopId: &sid}}}}
+	vp := &gtfsrt.FeedEntity{Id: hStr("vp"), Vehicle: &gtfsrt.VehiclePosition{Trip: mk(), Vehicle: desc(vr.Bool("vp.has_descriptor")), StopId: &sid}}
+	ver := "2.0"
+	parse := func(es ...*gtfsrt.FeedEntity) *gtfs.Realtime {
+		r, err := gtfs.ParseRealtime(vr.Marshal(&gtfsrt.FeedMessage{Header: &gtfsrt.FeedHeader{GtfsRealtimeVersion: &ver}, Entity: es}),
+			&gtfs.ParseRealtimeOptions{Extension: nycttrips.Extension(nycttrips.ExtensionOpts{})})
+		vr.Assert("C07.returns", err == nil && r != nil)
+		return r
+	}
+	a, b := parse(tu, vp), parse(vp, tu)
+	if a == nil || b == nil {
+		return
+	}
+	vr.Assert("C07.perm.trips", vr.DeepEq(a.Trips, b.Trips))
+	vr.Assert("C07.perm.vehicles.count", len(a.Vehicles) == len(b.Vehicles))
+	if len(a.Vehicles) == 1 && len(b.Vehicles) == 1 {
+		vr.Assert("C07.perm.vehicles", vr.DeepEq(a.Vehicles[0], b.Vehicles[0]))
+		vr.Assert("C07.own.vehicle", a.Vehicles[0].IsEntityInMessage && b.Vehicles[0].IsEntityInMessage)
+	}
+}
